@@ -84,12 +84,23 @@ def ident_mismatches(A, B):
 
 def single_path(fn, base=(), feas_ms=400):
     paths, info = explore(fn, base=base, feas_ms=feas_ms)
-    if len(paths) != 1:
-        raise sym.HarnessError(f"expected a single path, got {len(paths)} ({info})")
-    p = paths[0]
-    if isinstance(p.exc, (sym.Unsupported,)):
-        raise sym.HarnessError(f"unsupported operation on the only path: {p.exc}")
-    return p
+    if len(paths) != 1 or paths[0].exc is not None:
+        # a changed tree may fork or raise where the pinned source has one path: the extra paths become obligations
+        # of the running task ("this path is infeasible"), never a harness error
+        sess = solve.CURRENT
+        if sess is None:
+            raise sym.HarnessError(f"expected a single path, got {len(paths)} ({info})")
+        import inspect
+
+        p = main_path(sess, paths, inspect.stack()[1].function)
+        if p is None:
+            raise TaskAbandoned("every path raises")
+        return p
+    return paths[0]
+
+
+class TaskAbandoned(Exception):
+    """The task recorded failed obligations and cannot continue (not a harness error)."""
 
 
 def model_json(model, names):
@@ -140,3 +151,19 @@ def only_path(sess, paths, tag=None):
                 break
             sess.prove(f"{where}: unexpected additional path {k} ({what}) is infeasible", p.pc, z3.BoolVal(False), timeout_ms=8000)
     return paths[0]
+
+
+def main_path(sess, paths, tag):
+    """For harnesses written around the single path of the pinned source.  A changed tree may add paths or make
+    the only path raise; neither may end as a harness error (that would not be a detection).  Returns the first
+    path that returns a value (all other paths become obligations through `only_path`); when every path raises,
+    that is recorded as a failed obligation and None is returned."""
+    ok = [q for q in paths if q.exc is None]
+    if not ok:
+        for k, q in enumerate(paths[:4]):
+            sess.prove(f"{tag}: path {k} raises {type(q.exc).__name__}: {str(q.exc)[:80]}", q.pc, z3.BoolVal(False), timeout_ms=8000)
+        if not paths:
+            sess.prove(f"{tag}: no feasible path", [], z3.BoolVal(False))
+        return None
+    rest = [q for q in paths if q is not ok[0]]
+    return only_path(sess, [ok[0]] + rest, tag=tag)
